@@ -253,6 +253,11 @@ def _run_case(case, ctx):
         shp_ = data["shape"]
         nfix = int(rs.randint(1, len(shp_)))
         fm = sorted(rs.choice(len(shp_) if algo == "nn_parafac_hals" else len(shp_) - 1, size=min(nfix, len(shp_) - 1), replace=False).tolist())
+        if algo == "nn_parafac_hals" and rs.rand() < 0.5:
+            # the reported error is only valid for the un-normalised last *updated* factor: fixed last mode + normalisation
+            fm = sorted(set(fm[:-1] + [len(shp_) - 1])) if len(fm) > 1 or rs.rand() < 0.5 else fm
+            opts = dict(opts, normalize_factors=True)
+            which = which + "+normalize" if "normalize" not in which else which
         opts = dict(opts, fixed_modes=fm)
         opts.pop("init", None)
         opts.pop("sparsity_coefficients", None)
